@@ -111,6 +111,74 @@ class Ctx:
                 v.notes.append("%d disagreeing cases in %s (%s %s)" % (len(bad), what, profile, "+".join(features)))
         return first_rust
 
+    # ---------------------------------------------------------------- continuing after an error
+    def corr_after_error(self, cases, fails, what="", oracle=None, builds=None, model_cases=None):
+        """cases whose header asks the harness to go on after an error (cont=1); fails[i] = indices (among
+        the operations) that must return an error.  A failed operation must behave as if it had not been
+        issued: the models (which stop at the first error) are run on the history WITHOUT the failed
+        operations and their results are compared with the implementation's results for the remaining ones."""
+        v = self.v
+        if not cases:
+            return
+        self.sample(cases)
+        v.count(cases)
+        reduced = []
+        for j, (c, f) in enumerate(zip(cases, fails)):
+            # model_cases[j] = (header, data) the models should see instead (e.g. a ragged byte stream cut to whole words)
+            hdr, mdata = (model_cases[j] if model_cases else (list(c.groups[0][:11]), c.groups[1]))
+            ops = [g for k, g in enumerate(c.groups[2:]) if k not in f]
+            reduced.append(Case([list(hdr)[:11], mdata] + ops, c.tag, c.fail_exact, c.levels, c.wbackend))
+        for (profile, features) in (builds or QUICK_BUILDS):
+            binary = self.harness(profile, features)
+            if binary is None:
+                return
+            checks = "checks" in features
+            nocopy = "no_copy_impls" in features
+            rust = core.run_rust(binary, cases)
+            lv = sorted({l for c in cases for l in c.levels})
+            models = {l: core.run_model(self.driver, reduced, l, checks, nocopy) for l in lv}
+            core.log("%s: %d cases (continuing after errors), %s %s" % (what, len(cases), profile, "+".join(features) or "default"))
+            v.cov["evaluations"] += len(cases)
+            nbad = 0
+            for i, (c, f) in enumerate(zip(cases, fails)):
+                msg = None
+                level = None
+                nops = len(c.groups) - 2
+                for k in sorted(f):
+                    if k >= len(rust[i]) or rust[i][k] != [1]:
+                        msg = "op %d must report an error (it needs bits beyond the end) but returned %r" % (k, rust[i][k] if k < len(rust[i]) else None)
+                        level = 0
+                        break
+                if msg is None:
+                    for l in c.levels:
+                        m = list(models[l][i])
+                        exp = []
+                        it = iter(m)
+                        for k in range(nops):
+                            exp.append([1] if k in f else next(it, []))
+                        exp += list(it)
+                        mm = core.compare_case(c, rust[i], exp, stop_at_err=False)
+                        if mm:
+                            msg = "after the failed operation(s) %s: %s" % (sorted(f), mm)
+                            level = l
+                            break
+                if msg is None and oracle:
+                    msg = oracle(c, rust[i])
+                    level = 0
+                if msg is None:
+                    v.cov["traces_validated_against_impl"] += 1
+                    self.nontrivial.add(hash(c.line()))
+                    continue
+                nbad += 1
+                if nbad <= self.max_report:
+                    v.violation("%s [%s %s] %s: %s" % (what, profile, "+".join(features) or "default", c.tag, msg),
+                                {"kind": "disagreement", "property": v.prop, "profile": profile, "features": list(features),
+                                 "case": c.line(), "reduced_case": reduced[i].line(), "expected_errors": sorted(f), "tag": c.tag,
+                                 "class_key": c.tag, "levels": list(c.levels), "wbackend": c.wbackend, "after_error": True,
+                                 "impl_result": ";".join(" ".join("%x" % x for x in g) for g in rust[i])[:2000]},
+                                level == 0 or self.translator_ok)
+            v.cov["distinct_nontrivial"] = len(self.nontrivial)
+
     def minimize(self, case, binary, checks, nocopy, oracle):
         """greedy removal of operations while the disagreement persists"""
         def failing(c):
@@ -161,6 +229,42 @@ def check_C07(ctx):
     ctx.v.cov["rule"] = ("C02 grid with bit_pos() after every step, plus every seek target 0..=len followed by each kind of "
                          "operation, memory and Cursor backends")
     ctx.corr(gen.gen_C07(ctx.rng, ctx.tier), what="C07 positions")
+    # byte streams whose length is not a multiple of the word size, through the adapter: the ragged tail cannot be
+    # read (error); after that error a seek still addresses the right bit and positions are reported exactly
+    rng = ctx.rng
+    cases, fails, mcs = [], [], []
+    for E in (0, 1):
+        for rW in (16, 32, 64, 0):
+            Wb = rW if rW else 64
+            wb = Wb // 8
+            for nwords in (1, 2, 3):
+                for extra in sorted(set([1, wb // 2, wb - 1])):
+                    if not (0 < extra < wb):
+                        continue
+                    whole = nwords * Wb
+                    for _ in range(3 if ctx.tier == "quick" else 12):
+                        data = [rng.randrange(256) for _ in range(nwords * wb + extra)]
+                        p0 = rng.randrange(whole - Wb + 1, whole + 1) if rng.random() < 0.7 else whole
+                        pre = []
+                        left = p0
+                        while left > 0:
+                            q = min(left, 59)
+                            pre.append([10, q]); left -= q
+                        need = whole - p0 + 1
+                        if need > 64:
+                            continue
+                        bad = [[10, min(64, need + rng.randrange(0, 8))]]
+                        post = []
+                        for _ in range(3):
+                            q = rng.randrange(0, whole)
+                            post += [[18, q], [17], [10, min(whole - q, rng.randrange(1, 30))], [17]]
+                            if rng.random() < 0.4 and whole - q >= 12:
+                                post += [[18, q], [13, min(Wb if rW else 32, 12)], [10, 3], [17]]
+                        ops = pre + bad + post
+                        cases.append(Case([world_hdr(E, rW=rW, rstrict=1, rbackend=4, cont=1), data] + ops, "ragged-adapter/W%d" % rW))
+                        fails.append({len(pre)})
+                        mcs.append((world_hdr(E, rW=rW, rstrict=1, rbackend=3), data[: nwords * wb]))
+    ctx.corr_after_error(cases, fails, what="C07 seeks after an error at a ragged tail", model_cases=mcs)
 
 
 # =============================================================================== codes (C03, C04, C05, C06, C09)
@@ -218,6 +322,11 @@ def read_phase(ctx, written, what, tables_pairs=False):
         strict = it["strict"]
         rb = it.get("rb", 0)
         ops = [[10, k] for k in it["prefix"]]
+        Wb_ = it["rW"] if it["rW"] else 64
+        if it["off"] > 0 and ctx.rng.random() < (0.7 if it["off"] % Wb_ == 0 else 0.2):
+            # a used reader (some unread bits buffered) is positioned by a seek instead of by sequential reads
+            ops = [[10, ctx.rng.randrange(1, 12)], [18, it["off"]]]
+        it["npre"] = len(ops)
         ops.append([17])
         ops.append([15, it["cid"], it["p"], it["rfl"]])
         ops.append([17])
@@ -229,7 +338,7 @@ def read_phase(ctx, written, what, tables_pairs=False):
 
     def oracle(c, r):
         it, ret = idx[id(c)]
-        n = len(it["prefix"])
+        n = it["npre"]
         if len(r) < n + 5 or any(g[0] != 0 for g in r[: n + 5]):
             # u8 readers cannot serve 9+ bit tables; the model marks those Fail and the comparison skips them
             return None if (it["rW"] == 8 and it["rfl"] != 0) else "round trip failed: %r" % (r[n:n + 5],)
@@ -268,7 +377,8 @@ def code_items(ctx, dense):
                 Wb = 16
             strict = rng.randrange(2)
             rb = rng.choice([0, 0, 2, 3]) if strict else 0
-            items.append(dict(E=E, wW=wW, rW=rW, off=rng.randrange(0, 2 * Wb + 2), cid=cid, p=p, wfl=wfl, rfl=rfl, v=v,
+            off = rng.randrange(0, 2 * Wb + 2) if rng.random() < 0.8 else rng.choice([Wb, 2 * Wb])
+            items.append(dict(E=E, wW=wW, rW=rW, off=off, cid=cid, p=p, wfl=wfl, rfl=rfl, v=v,
                               strict=strict, rb=rb, wb=rng.choice([0, 2, 3])))
     return items
 
@@ -524,6 +634,50 @@ def check_C09(ctx):
                     return None
         return None
     ctx.corr(rcases, what="C09 truncated streams", oracle=oracle)
+    # the tail after a failed attempt: the reader stands k bits before the end of a strict stream (inside the last
+    # word, backend exhausted); an operation that needs more than k bits reports an error, and the k bits that lie
+    # entirely within the data are still delivered afterwards, with the right position
+    tcases, tfails = [], []
+    for E in (0, 1):
+        for rW in gen.WORDS_R:
+            Wb = rW if rW else 64
+            for rb in (0, 2, 3):
+                for nwords in (1, 2, 3):
+                    T = nwords * Wb
+                    rems = sorted(set([1, 2, Wb // 2, Wb - 2, Wb - 1, 7, 8, 9] + [rng.randrange(1, Wb) for _ in range(2)]))
+                    for rem in rems:
+                        if not (0 < rem < Wb):
+                            continue
+                        p_ = T - rem
+                        data = [rng.randrange(256) for _ in range(T // 8)]
+                        if rng.random() < 0.3:
+                            data = [255] * (T // 8)
+                        pre = []
+                        left = p_
+                        while left > 0:
+                            k = min(left, 57)
+                            pre.append([10, k]); left -= k
+                        if p_ > 0 and rng.random() < 0.4:
+                            pre = [[12, p_]]
+                        for kind in range(4):
+                            if kind == 0:
+                                bad = [[10, min(64, rem + rng.choice([1, 1, Wb // 2, Wb]))]]
+                            elif kind == 1:
+                                n = min(Wb if rW else 32, rem + 1 + rng.randrange(Wb))
+                                if n <= rem:
+                                    continue
+                                bad = [[13, n]]
+                            elif kind == 2:
+                                bad = [[10, min(64, rem + 1)], [13, min(Wb if rW else 32, rem + 1)]] if rem + 1 <= (Wb if rW else 32) else [[10, min(64, rem + 1)]]
+                            else:
+                                bad = [[16, rem // 8 + 1]]
+                            if any(o[0] == 10 and o[1] <= rem for o in bad):
+                                continue
+                            post = [[17], [10, min(rem, 64)], [17]] if rem <= 64 else [[17]]
+                            ops = pre + bad + post
+                            tcases.append(Case([world_hdr(E, rW=rW, rstrict=1, rbackend=rb, cont=1), data] + ops, "tail-after-error/W%d/rb%d" % (rW, rb)))
+                            tfails.append(set(range(len(pre), len(pre) + len(bad))))
+    ctx.corr_after_error(tcases, tfails, what="C09 tail after a failed read")
 
 
 # =============================================================================== C08
@@ -556,6 +710,30 @@ def check_C08(ctx):
                         rstrict = 0 if pname in ("random", "ones") else 1
                         cases.append(Case([world_hdr(E, wW=wW, rW=rW, rstrict=rstrict, wbackend=3), data] + ops,
                                           "%s/%s/r%d/w%d" % ("copy_to" if op == 30 else "copy_from", pname, rW, wW)))
+    # copies that end EXACTLY at the end of a strict (finite) stream: all n bits exist, so the copy succeeds, the next
+    # bit does not, and the optimised paths agree with the generic one
+    for E in (0, 1):
+        for rW in gen.WORDS_R:
+            Wb = rW if rW else 64
+            for rb in (0, 2, 3):
+                for wW in (gen.WORDS_W if ctx.tier != "quick" else rng.sample(gen.WORDS_W, 2)):
+                    for nwords in (1, 2, 3, 5):
+                        T = nwords * Wb
+                        for k in sorted(set([0, 1, Wb // 2, Wb - 1, Wb, Wb + 3, rng.randrange(T)])):
+                            if k >= T:
+                                continue
+                            data = [rng.randrange(256) for _ in range(T // 8)]
+                            pre = []
+                            left = k
+                            while left > 0:
+                                q = min(left, 61)
+                                pre.append([10, q]); left -= q
+                            if k and rng.random() < 0.3:
+                                pre.append([13, 1])      # a look-ahead first: more than a word may be buffered
+                            op = rng.choice([30, 31])
+                            ops = pre + gen.fill_prefix_w(wW, rng.randrange(wW)) + [[op, T - k], [17], [10, 1]]
+                            cases.append(Case([world_hdr(E, wW=wW, rW=rW, rstrict=1, rbackend=rb, wbackend=3), data] + ops,
+                                              "%s-to-exact-end/r%d/w%d" % ("copy_to" if op == 30 else "copy_from", rW, wW)))
     builds = [("debug", ()), ("release", ()), ("debug", ("no_copy_impls",))]
     if ctx.tier != "quick":
         builds += [("release", ("no_copy_impls",)), ("debug", ("checks",)), ("debug", ("checks", "no_copy_impls"))]
@@ -627,6 +805,10 @@ def check_C12(ctx):
                     # the same after a look-ahead refill (peek of the widest legal width: more than one word in the
                     # buffer), on random and on all-ones data
                     pk = [13, Wb if rW else 32]
+                    if off % 8 == 0:
+                        # ... and after a seek of a used reader to this position followed by a look-ahead
+                        cases.append(Case([world_hdr(E, rW=rW), data] + [[10, 5], [18, off], [13, min(9, Wb)], [16, ln], [17]],
+                                          "io_read-after-seek/W%d" % rW))
                     cases.append(Case([world_hdr(E, rW=rW), rng.choice([data, [255] * len(data)])] + pre + [pk, [16, ln], [10, 3], pk, [16, 2]],
                                       "io_read-after-peek/W%d" % rW))
     for _ in range(60 if ctx.tier == "quick" else 600):
@@ -727,6 +909,36 @@ def check_C14(ctx):
                 return "bits_read %d but the stream position is %d" % (cnt, g[1])
         return None
     ctx.corr(rcases, what="C14 counting reader", oracle=oracle_r)
+    # bulk copies issued through the wrappers
+    ccases, fcases = [], []
+    for _ in range(150 if ctx.tier == "quick" else 1500):
+        E = rng.randrange(2)
+        rW = rng.choice(gen.WORDS_R)
+        wW = rng.choice(gen.WORDS_W)
+        data = [rng.randrange(256) for _ in range(96)]
+        n1, n2 = rng.choice([0, 1, 7, 63, 64, 65, 128, rng.randrange(200)]), rng.choice([0, 1, 64, 65, rng.randrange(200)])
+        ops = [[10, rng.randrange(1, 40)], [33], [17], [30, n1], [33], [17], [32], [31, n2], [33], [17], [32], [10, 5], [33], [17]]
+        ccases.append(Case([world_hdr(E, wW=wW, rW=rW, rcount=1, wcount=1, wbackend=0), data] + ops, "count-copy/W%d" % rW))
+        # destination too small: the copy fails part-way; the counter must still equal the bits consumed
+        k = rng.randrange(1, 40)
+        big = rng.choice([wW + 1, 2 * wW, 3 * wW + 5, 300])
+        fops = [[10, k], [33], [17], [30, big], [33], [17], [10, 7], [33], [17]]
+        fcases.append(Case([world_hdr(E, wW=wW, wcap=1, rW=rW, rcount=1, wbackend=1, cont=1), data] + fops, "count-copy-failing/W%d" % rW, levels=(), wbackend=1))
+        # (a source that is too short is not used here: a failed read spanning several backend words leaves the
+        #  underlying BufBitReader having consumed the words it could read, which no property specifies)
+
+    def oracle_rc(c, r):
+        cnt = None
+        for op, g in zip(c.groups[2:], r):
+            if not g or g[0] != 0:
+                continue        # a failed operation (the harness goes on): nothing to read off it
+            if op[0] == 33:
+                cnt = g[1]
+            if op[0] == 17 and cnt is not None and g[1] != cnt:
+                return "bits_read %d but the stream position is %d" % (cnt, g[1])
+        return None
+    ctx.corr(ccases, what="C14 copies through the wrappers", oracle=oracle_rc)
+    ctx.corr(fcases, what="C14 copies failing part-way", oracle=oracle_rc, levels=[])
 
 
 # =============================================================================== pure properties
@@ -1544,6 +1756,25 @@ def replay(prop, path, v):
     print("case : " + line)
     print("impl : " + ";".join(" ".join("%x" % x for x in g) for g in r))
     failing = False
+    if payload.get("after_error"):
+        f = set(payload.get("expected_errors", []))
+        rl = payload["reduced_case"]
+        rc = Case([[int(t, 16) for t in g.split()] for g in rl.split(";")], c.tag, False, c.levels, c.wbackend)
+        nops = len(c.groups) - 2
+        for k in sorted(f):
+            if k >= len(r) or r[k] != [1]:
+                print("  -> op %d must report an error, returned %r" % (k, r[k] if k < len(r) else None))
+                failing = True
+        for l in c.levels:
+            m = core.run_model(driver, [rc], l, "checks" in feats, "no_copy_impls" in feats)[0]
+            it = iter(m)
+            exp = [[1] if k in f else next(it, []) for k in range(nops)] + list(it)
+            print("L%d   : %s   (model run without the failed operations)" % (l, ";".join(" ".join("%x" % x for x in g) for g in exp)))
+            msg = core.compare_case(c, r, exp, stop_at_err=False)
+            if msg:
+                print("  -> " + msg)
+                failing = True
+        return 1 if failing else 0
     for l in c.levels:
         m = core.run_model(driver, [c], l, "checks" in feats, "no_copy_impls" in feats)[0]
         print("L%d   : %s" % (l, ";".join(" ".join("%x" % x for x in g) for g in m)))
